@@ -38,6 +38,10 @@ CHECKS = {
          "deterministic simulation of DatasetManager + Allocator + cluster.Conn over a scripted raft.Group inside a synctest bubble; placement predicate per partition plus independence/spread statistics asserted only where the false-alarm probability is below 2^-60",
          "Seeded search over N (1..16), R (1..8), P (1..64) and shuffle / map-order seeds: every partition gets exactly min(R,N) distinct member ids; partitions are not all placed identically and every member is used, asserted only where chance makes a false alarm impossible in practice (< 2^-60).",
          "The local node is not a member (no partition raft started); randomness seeded by the harness (math/rand seed + runtime overlay)."),
+ "C13": ("exploration", "DESIGN.md §3 C13, §2.5 World I (concurrent)",
+         "deterministic simulation of goroutine interleavings: a seeded token scheduler owns every lock operation and sync/atomic statement of package index (source rewrite), random and PCT schedules; oracles: porcupine set-linearizability per id, Len bounds, search-liveness window, quiescent invariants, deadlock detector; second leg under the Go race detector with raw-pipe hand-off",
+         "Seeded search over schedules at synchronisation-point granularity for 2..5 workers (profiles: one writer + readers, many inserters, many writers). Per-id outcomes must be linearizable as a set (porcupine), Len within linearizable bounds, every concurrently returned search item live in the search window with the right score, quiescent state satisfies the sequential invariants and the C01 oracle; no panic, deadlock or race report.",
+         "Interleavings between two synchronisation points are not explored (only the race-detector leg sees plain accesses there); checkptr is disabled in the race build because the SIMD wrappers pass a length as a fake pointer (C15's subject)."),
 }
 
 NOT_APPLICABLE = {
